@@ -29,8 +29,17 @@ enum PK {
     MmapFail,
     MprotectFail,
     UncheckedMix,
+    /// the user's panic carries a payload that is not a string
+    UserNonString,
+    /// the user's panic is raised by the `returns:` expression of a fake!, i.e. inside the fake's frame
+    UserInReturns,
+    /// ... by the body of a closure fake
+    UserInClosure,
+    /// an over-call panic is caught by the test body (nested catch_unwind), the body carries on and leaves the
+    /// scope normally: verification then raises the one and only panic that leaves the scope
+    OverCallCaught,
 }
-const KINDS_ALL: [PK; 13] = [PK::None, PK::User, PK::WhenReject, PK::OverCall, PK::SigMismatch, PK::SigMismatchFakeMacro, PK::NullTarget, PK::NullFake, PK::BoolOnNonBool, PK::AsyncWrongOutput, PK::MmapFail, PK::MprotectFail, PK::UncheckedMix];
+const KINDS_ALL: [PK; 17] = [PK::UserNonString, PK::UserInReturns, PK::UserInClosure, PK::OverCallCaught, PK::None, PK::User, PK::WhenReject, PK::OverCall, PK::SigMismatch, PK::SigMismatchFakeMacro, PK::NullTarget, PK::NullFake, PK::BoolOnNonBool, PK::AsyncWrongOutput, PK::MmapFail, PK::MprotectFail, PK::UncheckedMix];
 
 #[derive(Clone, Debug)]
 struct Script {
@@ -44,6 +53,14 @@ struct Script {
 #[inline(never)]
 fn wrong_sig(_a: i64) -> i32 {
     1
+}
+#[inline(never)]
+fn victim() -> i32 {
+    std::hint::black_box(0x51C7)
+}
+#[inline(never)]
+fn raise_user() -> i32 {
+    panic!("USER: raised while the fake was computing its return value")
 }
 #[inline(never)]
 fn refuse_me() -> i32 {
@@ -169,6 +186,25 @@ fn body(pool: &Pool, s: &Script, rng: &mut Rng, obs: &mut Obs) {
         match s.kind {
             PK::None => {}
             PK::User => panic!("USER: injected at position {}", s.pos),
+            PK::UserNonString => std::panic::panic_any(0xC05_u32),
+            PK::UserInReturns => {
+                inj.when_called(injectorpp::func!(fn (victim)() -> i32)).will_execute(injectorpp::fake!(func_type: fn() -> i32, returns: raise_user()));
+                let _ = victim();
+            }
+            PK::UserInClosure => {
+                inj.when_called(injectorpp::func!(fn (victim)() -> i32)).will_execute_raw(injectorpp::closure!(|| -> i32 { raise_user() }, fn() -> i32));
+                let _ = victim();
+            }
+            PK::OverCallCaught => {
+                let _ = install(inj, &pool.targets[method], Kind::FakeTimes, 0, 1);
+                let st = S { k: 1 };
+                let _ = st.m(5);
+                let r = std::panic::catch_unwind(|| S { k: 1 }.m(5)); // past the budget, caught by the test body
+                if r.is_ok() {
+                    panic!("USER: HARNESS-MODEL over-call was admitted");
+                }
+                let _ = panicobs::take(); // only panics raised from here on leave the scope
+            }
             PK::WhenReject => {
                 let _ = install(inj, &pool.targets[method], Kind::FakeMacro, 0, 0);
                 let st = S { k: 1 };
@@ -239,6 +275,7 @@ pub fn run(ctx: &Ctx) {
     let pool = std::sync::Arc::new(build_pool_ex(ctx.seed, ctx.get_u("nosynth", 0) == 1));
     let images: Vec<Vec<u8>> = pool.targets.iter().map(|t| img(t.addr)).collect();
     let refuse_image = bytes_at(refuse_me as usize, 16);
+    let victim_image = bytes_at(victim as usize, 16);
     let refuse_async_addr = poll_addr(&refuse_async(0));
     let refuse_async_image = bytes_at(refuse_async_addr, 16);
     let mut by_msg: std::collections::BTreeMap<String, u64> = std::collections::BTreeMap::new();
@@ -292,7 +329,8 @@ pub fn run(ctx: &Ctx) {
                     "no-panic"
                 }
             }
-            PK::User => "user",
+            PK::User | PK::UserNonString | PK::UserInReturns | PK::UserInClosure => "user",
+            PK::OverCallCaught => "count-mismatch",
             PK::WhenReject => "unexpected-args",
             PK::OverCall => "over-called",
             PK::SigMismatch | PK::SigMismatchFakeMacro | PK::AsyncWrongOutput | PK::UncheckedMix => "sig-mismatch",
@@ -329,6 +367,10 @@ pub fn run(ctx: &Ctx) {
                     break;
                 }
             }
+        }
+        if sig.is_empty() && (bytes_at(victim as usize, 16) != victim_image || victim() != 0x51C7) {
+            sig = "target-not-restored-after-unwind".into();
+            d = d.s("target", "victim (faked by a fake that panics)");
         }
         if sig.is_empty() && (bytes_at(refuse_me as usize, 16) != refuse_image || bytes_at(refuse_async_addr, 16) != refuse_async_image) {
             sig = "refused-target-modified".into();
